@@ -17,7 +17,7 @@ EXPLANATION = (
     "mutation unless a handler undoes the pushes; pop undoes exactly one frame; binding storage subclasses threading.local with "
     "per-thread containers; every thread-submission site wraps the callable in bound-fn*, which snapshots outside the returned fn."
 )
-DECIDES = "push/pop pairing on all paths (Lisp and Python callers), atomic establishment of a multi-Var frame, frame-exact pop, thread-local storage shape, conveyance at submission sites"
+DECIDES = "push/pop pairing on all paths (Lisp and Python callers), atomic establishment of a multi-Var frame, frame-exact pop, thread-local storage shape, conveyance at submission sites and in pmap, a failing pop not abandoning its frame"
 DECLINED = "values seen under concrete interleavings; user code that calls push/pop directly"
 TRUSTED = ["threading.local gives each thread its own attribute namespace", "try/finally runs the finally on every exit"]
 ASSUMPTIONS = []
